@@ -1,5 +1,6 @@
 //! Property checks.
 pub mod c01;
+pub mod c11;
 pub mod c15;
 pub mod c17;
 pub mod c18;
@@ -22,6 +23,21 @@ pub fn run(id: &str, tier: &str) -> i32 {
             common::run_hist(&d, tier, &mut rep);
             rep.finish()
         }
+        "C11" => {
+            let d = c11::def(tier == "thorough");
+            let mut rep = crate::engine::Report::new(d.id, tier, d.level);
+            common::run_hist(&d, tier, &mut rep);
+            // fault_enumeration evidence keys
+            let t = rep.coverage.get("transitions").and_then(|x| x.as_u64()).unwrap_or(0);
+            let r = rep.coverage.get("replays_of_real_code").and_then(|x| x.as_u64()).unwrap_or(0);
+            let fr = c11::FAULT_RUNS.load(std::sync::atomic::Ordering::Relaxed);
+            rep.cov("evaluations", serde_json::json!(r + fr));
+            rep.cov("fault_injected_executions", serde_json::json!(fr));
+            rep.cov("fault_positions_by_call_kind_and_region", serde_json::json!(*c11::FAULT_KINDS.lock().unwrap()));
+            rep.cov("distinct_nontrivial", serde_json::json!(t));
+            rep.cov("rule", serde_json::json!("every transition of the history BFS is re-executed once per device call with that call failing; non-trivial = distinct (history, operation) transitions that issue at least one device call"));
+            rep.finish()
+        }
         "C15" => c15::run(tier),
         "C17" => c17::run(tier),
         "C18" => c18::run(tier),
@@ -40,6 +56,7 @@ fn hist_def(id: &str) -> Option<common::HistProp> {
         "C04" => Some(fsprops::c04_def()),
         "C05" => Some(fsprops::c05_def()),
         "C16" => Some(fsprops::c16_def()),
+        "C11" => Some(c11::def(false)),
         "C06" => Some(dirprops::c06_def()),
         "C07" => Some(dirprops::c07_def()),
         "C09" => Some(fsprops::c09_def()),
